@@ -38,6 +38,22 @@ def edit_world(r, W):
         W2 = copy.deepcopy(W)
         W2['netpols'][-1] = pol(b)
         return W2, 'ipBlock moved to a disjoint range'
+    if 0.22 <= y < 0.34 and W['workloads']:
+        # two workloads appear (or disappear) together, so that there are entries both of whose ends are new (lost); long names now and then
+        long_ = 'x' * 44 if r.random() < 0.4 else ''
+        nsx = r.choice(W['workloads'])['ns']
+        pair = []
+        for nm in ('wnewa' + long_, 'wnewb' + long_):
+            nw = gen.gen_world(r)['workloads'][0]
+            nw['name'], nw['ns'], nw['owner'] = nm, nsx, None
+            if nw['kind'] == 'Pod':
+                nw['kind'] = 'Deployment'
+            pair.append(nw)
+        if r.random() < 0.5:
+            W2['workloads'] += pair
+            return W2, 'two workloads added'
+        W['workloads'] += copy.deepcopy(pair)
+        return W2, 'two workloads removed'
     if y < 0.22:
         cands = [i for i, w in enumerate(W2['workloads']) if w['kind'] in KIND_SWAP]
         if cands:
